@@ -59,8 +59,8 @@ func obForProp(ob *Obligation, prop string) bool {
 func rootsFor(db *ContractDB, prop string) []*Contract {
 	var cs []*Contract
 	for _, c := range db.byFunc {
-		if c.Trusted || c.Fn == nil || len(c.Fn.Blocks) == 0 {
-			continue
+		if c.Trusted || c.Fn == nil || len(c.Fn.Blocks) == 0 || c.Inline {
+			continue // inline helpers are verified in the context of each caller
 		}
 		if contractProps(c)[prop] {
 			cs = append(cs, c)
